@@ -11,7 +11,15 @@ receives its private image of the parent's store object:
     how = "fork"   copy.deepcopy            (the memory image of a forked child)
     how = "spawn"  pickle round trip         (multiprocessing with the spawn / forkserver start method, Pool arguments)
     how = "self"   the parent's object itself (the parent goes on working next to its children; keeps the parent's pid)
-Whatever a store object captured when it was constructed or used by the parent is then common to several processes."""
+Whatever a store object captured when it was constructed or used by the parent is then common to several processes.
+
+scenario["io"] chooses when the bytes of a Python-level write reach the file: "flushed" (default: at the f.write call, each
+half of it a system call) or "buffered" (harness/fsbuf.py: where a real buffered file object performs its os-level
+writes - when the buffer overflows, at flush and at close; every os-level write, each half of it, and the os-level close
+are the scheduling points, so that a process can be preempted between a rename / symlink / open and the write or close
+that follows it).  Readers: ["load", path], ["has", key], ["probe", key] (has_blob and, when it says present,
+fetch_blob: what a process does that finds a blob already stored).  The result lists, for every switch between
+processes that took place, the operation after which the outgoing process was preempted ("switches")."""
 import copy
 import json
 import os
@@ -24,6 +32,7 @@ from collections import OrderedDict
 
 sys.path.insert(0, os.path.dirname(os.path.abspath(__file__)))
 import fsgate  # noqa: E402
+import fsbuf  # noqa: E402
 
 
 class Ctl(object):
@@ -33,6 +42,8 @@ class Ctl(object):
         self.state = ["new"] * n          # new | blocked | running | done
         self.cv = threading.Condition()
         self.trace = []
+        self.pending = [None] * n         # the operation each blocked thread is about to perform
+        self.executed = []                # operations in the order in which they were performed
 
     # called from worker threads before each fs operation
     def gate(self, who, entry):
@@ -41,6 +52,7 @@ class Ctl(object):
         with self.cv:
             self.state[who] = "blocked"
             self.trace.append([who] + entry[1:3])
+            self.pending[who] = [who] + entry[1:-1]          # (fsgate appends the thread to the entry)
             self.cv.notify_all()
         self.sems[who].acquire()
         with self.cv:
@@ -62,8 +74,16 @@ class Ctl(object):
             if self.state[who] != "blocked":
                 return False
             self.state[who] = "running"
+            self.executed.append(self.pending[who])
         self.sems[who].release()
         return self.wait_settled(who) is not None
+
+    def switches(self):
+        """For every change of the running process: the operation after which the outgoing process was preempted (or with
+        which it finished) and the process that went on."""
+        ex = self.executed
+        return [{"after": a, "then": b[0], "outgoing_finished": not any(e[0] == a[0] for e in ex[i + 1:])}
+                for i, (a, b) in enumerate(zip(ex, ex[1:])) if a[0] != b[0]]
 
 
 PARENT_PID = os.getpid()
@@ -134,8 +154,16 @@ def worker(ctl, who, root, prog, values, out, inherited=None):
                     res.append("L:" + k + ":" + repr(v))
                 elif a == "has":
                     res.append("B1" if store.has_blob(act[1]) else "B0")
+                elif a == "probe":
+                    # a process that finds the blob already stored uses it: present means complete
+                    if store.has_blob(act[1]):
+                        res.append("P:" + act[1] + ":" + repr(store.fetch_blob(act[1])))
+                    else:
+                        res.append("P0")
+                else:
+                    raise ValueError(a)
             except DDSException:
-                res.append("E")
+                res.append("PE:" + act[1] if a == "probe" else "E")
     except BaseException as e:  # noqa: the thread dies with a low-level exception
         res.append("X:" + type(e).__name__ + ":" + str(e)[:80])
     out[who] = res
@@ -148,6 +176,7 @@ def run_one(scenario, schedule, tear):
     ctl = Ctl(n)
     fsgate.install([root], mode="sched", sched=ctl.gate)
     fsgate.STATE["tear"] = tear
+    fsbuf.install(buffered=scenario.get("io", "flushed") == "buffered")
     out = [None] * n
     PIDS.clear()
     inherited = [None] * n
@@ -200,7 +229,8 @@ def run_one(scenario, schedule, tear):
         final["error"] = type(e).__name__ + ":" + str(e)[:80]
     leftovers = []
     shutil.rmtree(root, ignore_errors=True)
-    return {"out": out, "final": final, "n_ops": len(ctl.trace), "ops_per_thread": [sum(1 for t in ctl.trace if t[0] == i) for i in range(n)]}
+    return {"out": out, "final": final, "n_ops": len(ctl.trace), "ops_per_thread": [sum(1 for t in ctl.trace if t[0] == i) for i in range(n)],
+            "switches": ctl.switches()}
 
 
 def main():
